@@ -84,6 +84,25 @@ class Execution:
         return sum(self.preemptive)
 
 
+class _Gate:
+    """A binary semaphore that starts closed (a lock another thread may release)."""
+
+    __slots__ = ("_lock",)
+
+    def __init__(self) -> None:
+        self._lock = threading.Lock()
+        self._lock.acquire()
+
+    def acquire(self, timeout: float = -1) -> bool:
+        return self._lock.acquire(True, timeout)
+
+    def release(self) -> None:
+        try:
+            self._lock.release()
+        except RuntimeError:  # already open (only while abandoning an execution)
+            pass
+
+
 class Baton:
     """One execution of ``bodies`` (callables) under a given list of choices.
 
@@ -99,8 +118,10 @@ class Baton:
         self.timeout = timeout
         self.observe = observe
         n = len(self.bodies)
-        self.sem = [threading.Semaphore(0) for _ in range(n)]
-        self.main = threading.Semaphore(0)
+        # binary semaphores: the hand-over strictly alternates between the scheduler and
+        # one thread, so plain locks (C level, much cheaper than threading.Semaphore) do
+        self.sem = [_Gate() for _ in range(n)]
+        self.main = _Gate()
         self.done = [False] * n
         self.results: list = [None] * n
         self.last_event = None
